@@ -232,3 +232,27 @@ CHECKS["C15"] = dict(
     probes=["insert_mid_line", "line_full", "history_full", "crlf_twice", "esc_split_by_noise", "unknown_escape", "recall_with_cursor_inside_line", "bulk_paste_clamped", "getline", "linecpy"],
     assumptions=["screen wide enough that nothing wraps", "prompt is the default '$ '"],
 )
+
+CHECKS["C09"] = dict(
+    engine="E5-store",
+    level="fault_enumeration",
+    mode="asan",
+    defs=["-w"],
+    harness=["harness/C09_store.cpp", "harness/C09_api1.cpp", "harness/C09_api2.cpp"],
+    igris=[],
+    runs=dict(quick=12000, thorough=400000),
+    design_ref="DESIGN.md 4.5, 5 (C09)",
+    technique="deterministic simulation of a writer and a reader task over one cursor storage: concatenated streams of a compiled-in type family checked against an independent layout-rule encoder; "
+              "storage-layer fault injection = truncation at every offset of each sampled stream, decoded from exact-size heap copies under ASan, twice over differently scribbled stacks; golden encodings",
+    level_text="seeded streams (1-6 values drawn from ~30 types per API: fixed-width scalars, float/double, std::string with embedded NULs, vector of trivial and non-trivial elements, pair, tuple, map, "
+               "reflect / serialize_reflect structs, nesting to depth 3; sizes up to the 16-bit limit in the thorough tier) through both serialisation APIs: bytes written == layout rule, "
+               "decoded == original, reader cursor == writer offset after every value. For the bounded reader every truncation point of each sampled stream is enumerated: no read beyond the cut, "
+               "complete values intact, result independent of uninitialised memory. Recorded golden encodings must still be produced and still decode. Sampling of streams, enumeration of cut points",
+    level_note="trusted: the layout-rule reference encoder and the value generator in the harness; the unbounded binary_buffer_reader of the archive API is only used on complete input "
+               "(the property's truncation clause names the bounded storage reader)",
+    rule="one run = one seeded stream for one API (plus, in the truncation world, one decode per cut point). non-trivial = the stream has >= 2 values and one is a container; "
+         "distinct = distinct hash of the encoded bytes",
+    simtime_units="bytes written to the simulated storage",
+    probes=["empty_container", "nested_depth3", "non_trivial_element", "cut_inside_length_prefix_candidate", "len_65535"],
+    assumptions=["strings and containers hold at most 65535 elements", "native endianness of this machine (the property says native-endian)"],
+)
